@@ -79,10 +79,9 @@ fn lex_comment(lex: &mut logos::Lexer<TokenType>) -> bool {
 pub enum TokenType {
     #[regex(r"\r\n")]
     #[regex(r"\n")]
-    #[regex(r"\f")]
     Newline,
 
-    #[regex(r"[ \t]+")]
+    #[regex(r"[ \t\f]+")]
     Whitespace,
 
     #[token("(*", lex_comment)]
